@@ -1,5 +1,5 @@
 """C07 - panicking or lying callbacks cause no double drop and no uninitialised read."""
-from .. import balance, cfg, core, model, symx
+from .. import balance, cfg, core, fillloop, model, symx
 from ..effects import ZERO, vget
 from ..facts import operand_local, operand_place
 
@@ -35,7 +35,7 @@ def rule_make_after_user(ctx, rep):
                     if made is not None and i > made and (e["kind"] in USERISH or vget(v, "user") > 0) and e["kind"] != "DROP":
                         if bad is None:
                             bad = (p, e)
-                if got_block is not None and any(e["kind"] in USERISH for e in p.events[got_block:]):
+                if got_block is not None and any(e["kind"] in USERISH or vget(e["vec"], "user") > 0 for e in p.events[got_block:]):
                     interesting = True
             if not interesting:
                 continue
@@ -77,6 +77,9 @@ def rule_recheck(ctx, rep):
                     continue  # the header parameter
                 if o.get("kind") == "call":
                     c2 = _callee(o["term"])
+                    if fillloop.helper_role(F, c2) == "takes-checked-item":
+                        slot_writes += 1  # `ptr::write(cur, next_reported_item(&mut items))`: the helper is `next().expect(..)`
+                        continue
                     if c2 in ("<core::option::Option<T>>::expect", "<core::option::Option<T>>::unwrap"):
                         o2 = B.origin(o["term"]["args"][0])
                         if o2.get("kind") == "call" and o2["term"].get("callee") == "core::iter::traits::iterator::Iterator::next":
@@ -115,6 +118,13 @@ def rule_recheck(ctx, rep):
                     if o.get("kind") == "call" and o["term"].get("callee") == "core::iter::traits::iterator::Iterator::next":
                         guard = (bi, tt, c)
             if guard is None:
+                # or a private helper that returns only if one more `next()` gave None (`check_exhausted(&mut items)`)
+                hb = [bi for bi, t in B.calls() if fillloop.helper_role(F, _callee(t)) == "asserts-exhausted"]
+                dom = B.dominators()
+                if hb and make_bbs and all(any(x in dom.get(mb, set()) for x in hb) for mb in make_bbs):
+                    rep.ok("R-RECHECK", key + "/exhaustion", "through a helper that returns only on exhaustion", cfg=tag)
+                    continue
+            if guard is None:
                 rep.bad("R-RECHECK", key + "/exhaustion", "no branch on `items.next().is_none()` found: an under-reporting iterator is not detected before the handle is built", F.loc(b), tag)
             else:
                 bi, tt, c = guard
@@ -134,6 +144,14 @@ def rule_recheck(ctx, rep):
                 else:
                     rep.bad("R-RECHECK", key + "/exhaustion", "the handle is built on a path where the iterator was not confirmed exhausted (or the check does not dominate the construction)", F.loc(b, tt["span"]), tag)
     rep.floor("R-RECHECK", 2, "slot-write provenance and trailing exhaustion check")
+
+
+def _mentions_arg1(n):
+    if isinstance(n, tuple):
+        if n == ("arg", 1):
+            return True
+        return any(_mentions_arg1(x) for x in n)
+    return False
 
 
 def rule_guard(ctx, rep):
@@ -181,6 +199,8 @@ def rule_guard(ctx, rep):
                     continue
                 n += 1
                 rts = [e for e in p.events if e["kind"] == "RETARGET" and e["detail"].get("handle") == "ThinArc"]
+                # or the whole handle is overwritten in place: `ptr::write(self.this, thin)`
+                rts += [e for e in p.events if e["kind"] == "HIDE" and "write" in str(e["detail"].get("via")) and "ThinArc" in str(e["detail"].get("ty"))]
                 if not rts:
                     good = False
                     rep.bad("R-GUARD", key + "/guard-drop", balance.path_report(F, gb, p, "the guard's destructor returns without writing the (possibly replaced) pointer back into the ThinArc"), F.loc(gb), tag)
@@ -202,6 +222,17 @@ def rule_guard(ctx, rep):
                                 a0 = o["place"]
                                 if a0["p"] and isinstance(a0["p"][-1], dict) and a0["p"][-1].get("adt") == F.handle_paths.get("Arc"):
                                     src_ok = True
+                if not src_ok:
+                    from .. import ptrclass
+
+                    N = ptrclass.Norm(F)
+                    for _bi, t3 in B.calls():
+                        if _callee(t3) in ("core::ptr::write", "<*mut T>::write") and len(t3["args"]) == 2 and F.handle_name(F.strip_refs(t3["arg_tys"][1]) if t3.get("arg_tys") else -1) == "ThinArc":
+                            n = N.norm(symx.expr(F, B, t3["args"][1]), {})
+                            d = N.norm(symx.expr(F, B, t3["args"][0]), {})
+                            # value: a ThinArc around the pointer stored in the guard's own Arc; destination: reached from the guard
+                            if n[0] == "mk" and n[1] == "ThinArc" and n[2][0] == "stored" and _mentions_arg1(n[2]) and "opaque" not in str(n) and _mentions_arg1(d):
+                                src_ok = True
                 if src_ok:
                     rep.ok("R-GUARD", key + "/guard-drop", cfg=tag)
                 else:
